@@ -738,6 +738,8 @@ WS_QUICK = WS_ALL[:5]
 assert len(WS_ALL) == 29 and all(c.isspace() for c in WS_ALL)
 MICRO_SYMS = [s for s in SYMS47 if s.startswith(G.MICRO)]          # µm µs µmol µL µM
 WRAPS = [("", ""), (" ", ""), ("", " "), (" ", " "), ("\t", ""), ("", "\n"), ("  ", "\r\n")]
+PT_PREFIXES = ["", "k", "h", "da", "d", "c", "m", "µ", "u", "n", "p", "f", "a", "M", "G", "T", "kk", "mµ", "uu", "µµ"]
+PT_BASES = ["m", "s", "mol", "molecule", "L", "M", "min", "h", "g", "mm"]
 EXP_ALPHABET = ["-", "+", ".", " ", "0", "1", "2", "3"]
 SEP_ALPHABET = [".", "/", " ", "-", "+", "2"]
 # target symbol and two companions of other kinds (no base-unit conflict with the target)
@@ -857,6 +859,22 @@ def _spaces(tier):
                % (maxlen, SEP_ALPHABET, len(sslots), len(ys)), len(sslots) * len(ys),
                lambda i: {"sub": "alphabet", "family": "separator-alphabet",
                           "text": sslots[i // len(ys)][0] + ys[i % len(ys)] + sslots[i // len(ys)][1]}))
+    # every SI-style prefix x base combination: in the documented table -> exact meaning, otherwise rejected
+    psyms = []
+    for b_ in PT_BASES:
+        for p_ in PT_PREFIXES:
+            if p_ + b_ not in psyms:
+                psyms.append(p_ + b_)
+    pslots = [("", ""), ("", "2"), ("", "-1")]
+    for o in ("s", "m"):
+        for s1 in SEPS:
+            pslots += [("", s1 + o), (o + s1, ""), ("", "-2" + s1 + o + "3")]
+    sp.append(("prefix-table: %d prefixes %s x %d bases %s = %d distinct candidate symbols (%d of them documented) x %d slots "
+               "(alone, with exponent, first / last factor of a 2-factor text with s and m, both separators)"
+               % (len(PT_PREFIXES), PT_PREFIXES, len(PT_BASES), PT_BASES, len(psyms),
+                  sum(1 for s in psyms if G.lookup(s) is not None), len(pslots)), len(psyms) * len(pslots),
+               lambda i: {"sub": "alphabet", "family": "prefix-table",
+                          "text": pslots[i % len(pslots)][0] + psyms[i // len(pslots)] + pslots[i % len(pslots)][1]}))
     # the same two families with every other white-space character in place of the blank
     extra = (WS_QUICK if tier == "quick" else WS_ALL)[1:]
     long_ws = [] if tier == "quick" else ["\n", "\t"]
